@@ -55,12 +55,15 @@ impl State {
 //@use state.fns State::insn_meter_increase
 //@use state.fns State::code_origin
 //@use state.fns State::is_running
+//@use state.fns State::clear_last_error
+//@use state.fns State::location_from_current_ip
+//@use state.fns State::set_runtime_err_location
+//@use state.fns State::next
 //@use state.fns State::reverse_changes
 //@use state.fns State::dict_entry
 //@use state.fns State::load_value_opcode
 //@use state.fns State::backpatch
 //@use state.fns State::fetch_and_run
-//@use state.fns State::clear_last_error
 //@use state.fns State::rnext
 }
 
@@ -160,6 +163,10 @@ impl From<i64> for Cell {
 //@use cell.fns "impl From<i64> for Cell"::from
 }
 impl core::ops::Deref for Xstr { type Target = str; #[verifier::external_body] fn deref(&self) -> &str { unimplemented!() } }
+
+// src/lex.rs token_location (verified in unit lex): here a function of the sources and the token
+#[verifier::external_body] fn token_location(sources: &[(Xstr, Xstr)], token: &Xsubstr) -> (r: Option<TokenLocation>)
+    ensures r == token_location_spec(sources@, *token) { unimplemented!() }
 
 impl RelativeJump {
 //@use cell.fns RelativeJump::calculate
